@@ -28,11 +28,28 @@ Lemma link_monitor : C15_Gen.calls_monitor =
   ["c.lock.Lock"; "append"; "c.lock.Unlock"; "c.getClient"; "return"; "c.load"; "c.watch"; "c.watchGroup.Run"; "return"].
 Proof. reflexivity. Qed.
 
-(* Model.step (Reload): stop all streams, then per listened key load and one watch (nwatch := 1) *)
+(* Model.step (Reload): stop all streams (waiting for them with c.lock released), then per listened key load and one watch (nwatch := 1) *)
 Lemma link_reload : C15_Gen.calls_reload =
-  ["c.lock.Lock"; "close"; "c.watchGroup.Wait"; "make"; "threading.NewRoutineGroup"; "append"; "c.lock.Unlock";
-   "c.load"; "c.watch"; "c.watchGroup.Run"].
+  ["c.reloadLock.Lock"; "defer:c.reloadLock.Unlock"; "c.lock.Lock"; "close"; "c.lock.Unlock"; "group.Wait"; "c.lock.Lock"; "make";
+   "threading.NewRoutineGroup"; "append"; "c.lock.Unlock"; "c.load"; "c.watch"; "c.watchGroup.Run"].
 Proof. reflexivity. Qed.
+
+(* D23: the watch group is awaited with c.lock RELEASED (a stream goroutine that has just taken a response needs the
+   lock in handleWatchEvents before it can see c.done closed): walking the skeleton, no c.lock is held at a Wait *)
+Fixpoint waits_unlocked (held : bool) (l : list string) : bool :=
+  match l with
+  | [] => true
+  | x :: r =>
+      if String.eqb x "c.lock.Lock" then waits_unlocked true r
+      else if String.eqb x "c.lock.Unlock" then waits_unlocked false r
+      else if String.eqb x "group.Wait" || String.eqb x "c.watchGroup.Wait" then negb held && waits_unlocked held r
+      else waits_unlocked held r
+  end.
+
+Lemma link_reload_waits_unlocked :
+  waits_unlocked false C15_Gen.calls_reload = true /\
+  existsb (fun x => String.eqb x "group.Wait" || String.eqb x "c.watchGroup.Wait") C15_Gen.calls_reload = true.
+Proof. split; reflexivity. Qed.
 
 (* Model.snapshot_of: Get(makeKeyPrefix(key), WithPrefix) handed to handleChanges *)
 Lemma link_load : C15_Gen.calls_load =
